@@ -1,6 +1,9 @@
 (* C01, part 2: the simulation.  For every construct of the core grammar the emitted code
    (Model/Machine.v) and the documented semantics (Model/RefSem.v) take a state to the same
-   outcome; one lemma per construct, then induction on the fuel. *)
+   outcome; one lemma per construct, then induction on the fuel.
+   Early exits: the emitted code pops its bookkeeping BEFORE it jumps, the reference evaluator
+   signals and lets the brackets restore; `lift` is exactly that difference (the pops the
+   lowering of X / x emits), and it is the identity on every outcome that is not an early exit. *)
 From Coq Require Import List NArith ZArith Bool Lia.
 From Vy Require Import Model.Base Model.Lexer Model.Parser Model.Transpile Gen.ParserConsts
   Model.Values Model.Machine Model.RefSem Proofs.C01Frames.
@@ -97,54 +100,120 @@ Section Ext.
 End Ext.
 
 (* ---- states ------------------------------------------------------------------------------------------------------ *)
-Lemma state_eta s :
-  s = mkSt (stk s) (ctxv s) (top_in s) (inner s) (fdepth s) (sdepth s) (reg s) (vars s) (locs s) (out s) (printed s).
-Proof. destruct s; reflexivity. Qed.
-
-Ltac st_simpl :=
-  unfold set_stk, set_ctxv, set_top_in, set_inner, set_fdepth, set_sdepth, set_reg, set_vars, set_locs, emit, push, scope in *;
-  cbn [stk ctxv top_in inner fdepth sdepth reg vars locs out printed] in *.
-
 Lemma state_ext a b :
-  stk a = stk b -> ctxv a = ctxv b -> top_in a = top_in b -> inner a = inner b -> fdepth a = fdepth b ->
-  sdepth a = sdepth b -> reg a = reg b -> vars a = vars b -> locs a = locs b -> out a = out b ->
+  stk a = stk b -> ctxv a = ctxv b -> top_in a = top_in b -> inner a = inner b -> fstack a = fstack b ->
+  sdepth a = sdepth b -> reg a = reg b -> vars a = vars b -> locs a = locs b -> this a = this b -> out a = out b ->
   printed a = printed b -> a = b.
 Proof. destruct a, b; simpl; intros; subst; reflexivity. Qed.
 
-Lemma set_stk_same' s :
-  mkSt (stk s) (ctxv s) (top_in s) (inner s) (fdepth s) (sdepth s) (reg s) (vars s) (locs s) (out s) (printed s) = s.
+Lemma set_stk_same s : set_stk s (stk s) = s.
 Proof. destruct s; reflexivity. Qed.
+Lemma set_stk_set s a : set_stk (set_stk s a) (stk s) = s.
+Proof. destruct s; reflexivity. Qed.
+
+Arguments m_lambda_pops : simpl never.
+
+(* ---- early exits: what the machine has already popped when it jumps ------------------------------------------------- *)
+Definition lift (r : fres) : fres :=
+  match r with
+  | XOk (SBrk, s) => xdo s1 <- m_ctx_pop s; XOk (SBrk, s1)
+  | XOk (SCont, s) => xdo s1 <- m_ctx_pop s; XOk (SCont, s1)
+  | XOk (SRet v, s) => xdo s1 <- m_lambda_pops s; XOk (SRet v, s1)
+  | _ => r
+  end.
+
+(* which early exits a statement list may end with, by where it stands *)
+Definition sig_ok (il : lk) (lam : bool) (r : fres) : Prop :=
+  match r with
+  | XOk (SBrk, _) => in_loop il = true
+  | XOk (SCont, _) => in_for il = true
+  | XOk (SRet _, _) => lam = true
+  | _ => True
+  end.
+
+Definition only_norm (r : fres) : Prop :=
+  match r with XOk (SNorm, _) => True | XOk _ => False | _ => True end.
+
+Lemma only_norm_lift r : only_norm r -> lift r = r.
+Proof. destruct r as [[[] s]| |]; simpl; tauto. Qed.
+Lemma only_norm_sig il lam r : only_norm r -> sig_ok il lam r.
+Proof. destruct r as [[[] s]| |]; simpl; tauto. Qed.
+Lemma only_norm_norm r : only_norm (norm r).
+Proof. destruct r; exact I. Qed.
+Lemma sig_none r : sig_ok LNone false r -> only_norm r.
+Proof. destruct r as [[[] s]| |]; simpl; auto; discriminate. Qed.
+
+(* sequencing: go on after a normal end, pass an early exit on *)
+Definition then_ (r : fres) (k : state -> fres) : fres :=
+  xdo (g, s1) <- r; match g with SNorm => k s1 | _ => XOk (g, s1) end.
+
+Lemma lift_then m r km kr :
+  m = lift r -> (forall s, r = XOk (SNorm, s) -> km s = lift (kr s)) -> then_ m km = lift (then_ r kr).
+Proof.
+  intros -> H. unfold then_. destruct r as [[g s1]| |]; try reflexivity.
+  destruct g; simpl.
+  - apply H. reflexivity.
+  - destruct (m_ctx_pop s1); reflexivity.
+  - destruct (m_ctx_pop s1); reflexivity.
+  - destruct (m_lambda_pops s1); reflexivity.
+Qed.
+
+Lemma sig_then il lam r kr :
+  sig_ok il lam r -> (forall s, r = XOk (SNorm, s) -> sig_ok il lam (kr s)) -> sig_ok il lam (then_ r kr).
+Proof.
+  intros H1 H2. unfold then_. destruct r as [[g s1]| |]; simpl; auto.
+  destruct g; simpl; auto.
+Qed.
+
+Lemma seq_run_then step x r s : seq_run step (x :: r) s = then_ (step x s) (seq_run step r).
+Proof. reflexivity. Qed.
 
 Section Sim.
   Variable cf : cfg.
   Variable mrec : rec_t.
-  Variable mwl : bool -> value -> list struct -> list struct -> state -> xres state.
-  Variable rrec : list struct -> state -> xres state.
-  Variable rwl : value -> list struct -> list struct -> state -> xres state.
-  Hypothesis Hrec : forall indef p s, core_ok_list indef p = true -> mrec indef p s = rrec p s.
+  Variable mwl : bool -> value -> list struct -> list struct -> state -> fres.
+  Variable rrec : list struct -> state -> fres.
+  Variable rwl : value -> list struct -> list struct -> state -> fres.
+  Hypothesis Hrec : forall indef il lam p s, core_ok_list indef il lam p = true ->
+    mrec indef p s = lift (rrec p s) /\ sig_ok il lam (rrec p s).
   Hypothesis Hwl : forall indef v c b s,
-    core_ok_list indef c = true -> core_ok_list indef b = true -> mwl indef v c b s = rwl v c b s.
-  Hypothesis Hfr : forall p s, keeps (rrec p s) s.
+    core_ok_list indef LNone false c = true -> core_ok_list indef LWhile false b = true ->
+    mwl indef v c b s = rwl v c b s /\ only_norm (rwl v c b s).
+  Hypothesis Hfr : forall p s, keeps2 (rrec p s) s.
+
+  (* a body that can only end normally *)
+  Lemma rec_plain indef p s : core_ok_list indef LNone false p = true ->
+    mrec indef p s = rrec p s /\ only_norm (rrec p s).
+  Proof.
+    intro Hc. destruct (Hrec indef LNone false p s Hc) as [E S]. apply sig_none in S.
+    rewrite E, (only_norm_lift _ S). auto.
+  Qed.
 
   (* ---- lambdas ---------------------------------------------------------------------------------------------------- *)
-  Lemma lambda_sim c popped s :
-    core_ok_list true (c_body c) = true -> m_lambda_body mrec c popped s = r_lambda rrec c popped s.
+  Lemma lambda_sim self c popped s :
+    core_ok_list true LNone true (c_body c) = true ->
+    m_lambda_body mrec self c popped s = r_lambda rrec self c popped s.
   Proof.
     intro Hc.
-    unfold m_lambda_body, r_lambda, with_stack, with_locals, with_function, with_context, with_scope, with_registered, bracket.
+    unfold m_lambda_body, r_lambda, with_stack, with_locals, with_this, with_function, with_context, with_scope, with_registered, bracket.
     match goal with |- xbind (mrec true _ ?A) _ = _ => set (S0 := A) end.
     match goal with |- context [rrec (c_body c) ?B] => replace B with S0 by (apply state_ext; reflexivity) end.
-    rewrite (Hrec true _ _ Hc).
-    pose proof (Hfr (c_body c) S0) as K. destruct (rrec (c_body c) S0) as [s1| |]; simpl; try reflexivity.
-    destruct (pop1 s1) as [s2 r] eqn:E. apply pop1_frames in E. simpl.
-    pose proof (frames_trans _ _ _ K E) as F. clear K E.
-    destruct F as (F1 & F2 & F3 & F4). subst S0. simpl in F1, F2, F3, F4.
-    destruct (inner s2) as [|[l c2] r2] eqn:EI; [contradiction|]. destruct F4 as [_ F4]. subst r2.
-    unfold m_ctx_pop. rewrite F1. simpl.
-    unfold m_inputs_pop. simpl. rewrite EI. simpl.
-    unfold m_stacks_pop. simpl. rewrite F3. simpl.
-    unfold m_fstack_pop. simpl. rewrite F2. simpl.
-    repeat f_equal; try (apply state_ext; reflexivity).
+    destruct (Hrec true LNone true _ S0 Hc) as [E SG]. rewrite E. clear E.
+    pose proof (Hfr (c_body c) S0) as K. destruct (rrec (c_body c) S0) as [[g s1]| |]; simpl; try reflexivity.
+    assert (P : forall s2, frames S0 s2 ->
+              m_lambda_pops s2 = XOk (set_fstack (set_sdepth (set_inner (set_ctxv s2 (ctxv s)) (inner s)) (sdepth s)) (fstack s))).
+    { intros s2 (F1 & F2 & F3 & F4). subst S0. simpl in F1, F2, F3, F4.
+      destruct (inner s2) as [|[l c2] r2] eqn:EI; [contradiction|]. destruct F4 as [_ F4]. subst r2.
+      unfold m_lambda_pops, m_ctx_pop. rewrite F1. simpl.
+      unfold m_inputs_pop. simpl. rewrite EI. simpl.
+      unfold m_stacks_pop. simpl. rewrite F3. simpl.
+      unfold m_fstack_pop. simpl. rewrite F2. simpl. reflexivity. }
+    destruct g; simpl in SG; try discriminate; simpl.
+    - destruct (pop1 s1) as [s2 r] eqn:E. apply pop1_frames in E. simpl.
+      rewrite (P s2 (frames_trans _ _ _ K E)). simpl. unfold leave_frame.
+      repeat f_equal; try (apply state_ext; reflexivity).
+    - simpl. rewrite (P s1 K). simpl. unfold leave_frame.
+      repeat f_equal; try (apply state_ext; reflexivity).
   Qed.
 
   (* ---- named functions ------------------------------------------------------------------------------------------ *)
@@ -164,40 +233,50 @@ Section Sim.
   Qed.
 
   Lemma named_sim c s :
-    core_ok_list true (c_body c) = true -> m_named_body mrec c s = r_named rrec c s.
+    core_ok_list true LNone false (c_body c) = true -> m_named_body mrec c s = r_named rrec c s.
   Proof.
     intro Hc. unfold m_named_body, r_named, bind_all. rewrite m_params_eq.
     destruct (r_params (c_params c) s) as [[[s1 ps] loc]| |]; simpl; try reflexivity.
-    unfold with_stack, with_locals, with_context, with_scope, with_registered, bracket.
+    unfold with_stack, with_locals, with_this, with_context, with_scope, with_registered, bracket.
     match goal with |- xbind (mrec true _ ?A) _ = _ => set (S0 := A) end.
     match goal with |- context [rrec (c_body c) ?B] => replace B with S0 by (apply state_ext; reflexivity) end.
-    rewrite (Hrec true _ _ Hc).
-    pose proof (Hfr (c_body c) S0) as K. destruct (rrec (c_body c) S0) as [s2| |]; simpl; try reflexivity.
+    destruct (rec_plain true _ S0 Hc) as [E ON]. rewrite E. clear E.
+    pose proof (Hfr (c_body c) S0) as K. destruct (rrec (c_body c) S0) as [[g s2]| |]; simpl; try reflexivity.
+    destruct g; simpl in ON; try contradiction.
     destruct K as (F1 & F2 & F3 & F4). subst S0. simpl in F1, F2, F3, F4.
     destruct (inner s2) as [|[l c2] r2] eqn:EI; [contradiction|]. destruct F4 as [_ F4]. subst r2.
     unfold m_ctx_pop. rewrite F1. simpl.
     unfold m_inputs_pop. simpl. rewrite EI. simpl.
-    unfold m_stacks_pop. simpl. rewrite F3. simpl.
-    repeat f_equal; try (apply state_ext; reflexivity).
+    unfold m_stacks_pop. simpl. rewrite F3. simpl. unfold leave_frame.
+    repeat f_equal; try (apply state_ext; simpl; auto).
   Qed.
 
-  (* ---- the two call protocols -------------------------------------------------------------------------------------- *)
+  (* ---- the call protocols ------------------------------------------------------------------------------------------- *)
+  Lemma body_ok_lambda c : body_ok c = true -> c_named c = false -> core_ok_list true LNone true (c_body c) = true.
+  Proof. unfold body_ok. intros H E. rewrite E in H. exact H. Qed.
+  Lemma body_ok_named c : body_ok c = true -> c_named c = true -> core_ok_list true LNone false (c_body c) = true.
+  Proof. unfold body_ok. intros H E. rewrite E in H. exact H. Qed.
+
   Lemma app_sim c args s : m_app mrec c args s = r_app rrec c args s.
   Proof.
-    unfold m_app, r_app. destruct (core_ok_list true (c_body c)) eqn:Hc; [|reflexivity].
-    destruct (c_named c); [|apply lambda_sim; exact Hc].
-    rewrite (named_sim c _ Hc). unfold with_stack, bracket.
+    unfold m_app, r_app. destruct (body_ok c) eqn:Hc; [|reflexivity].
+    destruct (c_named c) eqn:Hn; [|apply lambda_sim; apply body_ok_lambda; assumption].
+    rewrite (named_sim c _ (body_ok_named c Hc Hn)). unfold with_stack, bracket.
     destruct (r_named rrec c (set_stk s args)) as [[fs s1]| |]; simpl; try reflexivity.
     destruct fs; reflexivity.
   Qed.
 
-  Lemma callstk_sim c s : m_callstk mrec c s = r_callstk rrec c s.
+  Lemma call_sim self c s : m_call_on_stack mrec self c s = r_call_on_stack rrec self c s.
   Proof.
-    unfold m_callstk, r_callstk. destruct (core_ok_list true (c_body c)) eqn:Hc; [|reflexivity].
-    destruct (c_named c).
-    - rewrite (named_sim c _ Hc). reflexivity.
-    - destruct (popn (select_arity c None) s) as [s1 popped]. rewrite (lambda_sim c popped s1 Hc). reflexivity.
+    unfold m_call_on_stack, r_call_on_stack. destruct (body_ok c) eqn:Hc; [|reflexivity].
+    destruct (c_named c) eqn:Hn.
+    - rewrite (named_sim c _ (body_ok_named c Hc Hn)). reflexivity.
+    - destruct (popn (select_arity c None) s) as [s1 popped].
+      rewrite (lambda_sim self c popped s1 (body_ok_lambda c Hc Hn)). reflexivity.
   Qed.
+
+  Lemma callstk_sim c s : m_callstk mrec c s = r_callstk rrec c s.
+  Proof. apply call_sim. Qed.
 
   Lemma elem_sim k s : elem_sem cf (m_app mrec) (m_callstk mrec) k s = elem_sem cf (r_app rrec) (r_callstk rrec) k s.
   Proof. apply elem_sem_ext; [apply app_sim|apply callstk_sim]. Qed.
@@ -210,29 +289,77 @@ Section Sim.
     - apply andb_prop in H as [H1 H2]. rewrite H1, H2. reflexivity.
   Qed.
 
-  (* ---- a context value around a body ----------------------------------------------------------------------------------- *)
-  Lemma ctx_push_pop v (k : state -> xres state) s :
-    keeps (k (m_ctx_push v s)) (m_ctx_push v s) ->
-    xbind (k (m_ctx_push v s)) m_ctx_pop = with_context_u v k s.
+  (* ---- early exits -------------------------------------------------------------------------------------------------------- *)
+  Lemma break_sim il lam p s : break_core il lam p = true ->
+    m_break p s = lift (r_break p s) /\ sig_ok il lam (r_break p s).
   Proof.
-    unfold with_context_u, m_ctx_push. intro K.
-    destruct (k (set_ctxv s (v :: ctxv s))) as [s'| |]; simpl; try reflexivity.
-    destruct K as (F1 & _). simpl in F1. unfold m_ctx_pop. rewrite F1. reflexivity.
+    unfold break_core, m_break, r_break. destruct p as [[]|]; intro H; try discriminate; simpl; auto.
+    destruct (pop1 s) as [s1 v]. simpl. auto.
+  Qed.
+
+  Lemma recurse_sim indef il lam p s : recurse_core indef il lam p = true ->
+    m_recurse mrec p s = lift (r_recurse rrec p s) /\ sig_ok il lam (r_recurse rrec p s).
+  Proof.
+    unfold recurse_core, m_recurse, r_recurse. destruct p as [[]|]; intro H; try discriminate.
+    - simpl. auto.
+    - destruct (this s); [|simpl; auto]. rewrite call_sim.
+      split; [symmetry; apply only_norm_lift|apply only_norm_sig]; apply only_norm_norm.
+    - destruct (nth_error (fstack s) 1) as [[c|]|]; try (simpl; auto; fail). rewrite call_sim.
+      split; [symmetry; apply only_norm_lift|apply only_norm_sig]; apply only_norm_norm.
+    - destruct (nth_error (fstack s) 1) as [[c|]|]; try (simpl; auto; fail). rewrite call_sim.
+      split; [symmetry; apply only_norm_lift|apply only_norm_sig]; apply only_norm_norm.
+    - destruct (nth_error (fstack s) 1) as [[c|]|]; try (simpl; auto; fail). rewrite call_sim.
+      split; [symmetry; apply only_norm_lift|apply only_norm_sig]; apply only_norm_norm.
+    - split; [symmetry; apply only_norm_lift|apply only_norm_sig]; apply only_norm_norm.
+  Qed.
+
+  (* ---- a context value around a body ----------------------------------------------------------------------------------- *)
+  (* what the loop does with the end of one iteration: the machine pops after a normal end, the
+     lowering of X / x has popped already; the reference evaluator restores in every case *)
+  Lemma ctx_iteration v (r : state -> fres) s :
+    keeps2 (r (m_ctx_push v s)) (m_ctx_push v s) ->
+    (xdo (g, s1) <- lift (r (m_ctx_push v s));
+     match g with SNorm => xdo s2 <- m_ctx_pop s1; XOk (g, s2) | _ => XOk (g, s1) end)
+    = (match with_context v r s with
+       | XOk (SRet x, s1) => xdo s2 <- m_lambda_pops (set_ctxv s1 (v :: ctxv s)); XOk (SRet x, s2)
+       | o => o
+       end).
+  Proof.
+    unfold with_context, bracket, m_ctx_push. intro K.
+    destruct (r (set_ctxv s (v :: ctxv s))) as [[g s1]| |]; simpl; try reflexivity.
+    destruct K as (F1 & _). simpl in F1.
+    destruct g; simpl; unfold m_ctx_pop; try (rewrite F1; reflexivity).
+    assert (E : set_ctxv (set_ctxv s1 (ctxv s)) (v :: ctxv s) = s1) by (apply state_ext; simpl; auto).
+    rewrite E. destruct (m_lambda_pops s1); reflexivity.
   Qed.
 
   (* ---- if ------------------------------------------------------------------------------------------------------------------- *)
-  Lemma ifs_sim indef : forall n bs, (length bs <= n)%nat -> forallb (core_ok_list indef) bs = true ->
-    forall s, m_ifs (mrec indef) bs false s = r_elif rrec bs s.
+  Lemma r_elif_then c b rest s :
+    r_elif rrec (c :: b :: rest) s =
+    then_ (rrec c s) (fun s1 => let (s2, v) := pop1 s1 in xdo t <- of_opt (truthy v); if t then rrec b s2 else r_elif rrec rest s2).
+  Proof. reflexivity. Qed.
+  Lemma m_ifs_then run x y rest s :
+    m_ifs run (x :: y :: rest) false s =
+    then_ (run x s) (fun s1 => let (s2, c) := pop1 s1 in xdo b <- of_opt (truthy c); if b then run y s2 else m_ifs run rest false s2).
+  Proof. reflexivity. Qed.
+
+  Lemma ifs_sim indef il lam : forall n bs, (length bs <= n)%nat -> forallb (core_ok_list indef il lam) bs = true ->
+    forall s, m_ifs (mrec indef) bs false s = lift (r_elif rrec bs s) /\ sig_ok il lam (r_elif rrec bs s).
   Proof.
     induction n as [|n IH]; intros bs Hlen Hc s.
-    - destruct bs; [reflexivity|simpl in Hlen; lia].
-    - destruct bs as [|x [|y rest]]; [reflexivity| |].
+    - destruct bs; [simpl; auto|simpl in Hlen; lia].
+    - destruct bs as [|x [|y rest]]; [simpl; auto| |].
       + simpl in Hc. rewrite andb_true_r in Hc. cbn [m_ifs r_elif]. apply Hrec. exact Hc.
       + cbn [forallb] in Hc. apply andb_prop in Hc as [Hx Hc]. apply andb_prop in Hc as [Hy Hr].
-        cbn [m_ifs r_elif]. rewrite (Hrec indef x s Hx). apply xbind_ext. intros s1 _.
-        destruct (pop1 s1) as [s2 v]. apply xbind_ext. intros b _. destruct b.
-        * apply Hrec. exact Hy.
-        * apply IH; [simpl in Hlen; lia|exact Hr].
+        rewrite m_ifs_then, r_elif_then. destruct (Hrec indef il lam x s Hx) as [Ex Sx].
+        assert (G : forall s1, (let (s2, c) := pop1 s1 in xdo b <- of_opt (truthy c); if b then mrec indef y s2 else m_ifs (mrec indef) rest false s2)
+                     = lift (let (s2, v) := pop1 s1 in xdo t <- of_opt (truthy v); if t then rrec y s2 else r_elif rrec rest s2)
+                    /\ sig_ok il lam (let (s2, v) := pop1 s1 in xdo t <- of_opt (truthy v); if t then rrec y s2 else r_elif rrec rest s2)).
+        { intro s1. destruct (pop1 s1) as [s2 v].
+          destruct (truthy v) as [[|]|]; cbn [of_opt xbind]; [apply Hrec; exact Hy|apply IH; [simpl in Hlen; lia|exact Hr]|split; [reflexivity|exact I]]. }
+        split.
+        * apply lift_then; [exact Ex|]. intros s1 _. apply G.
+        * apply sig_then; [exact Sx|]. intros s1 _. apply G.
   Qed.
 
   Lemma m_ifs_true2 run x y rest s :
@@ -240,43 +367,48 @@ Section Sim.
     let (s1, c) := pop1 s in xdo b <- of_opt (truthy c); if b then run x s1 else m_ifs run (y :: rest) false s1.
   Proof. reflexivity. Qed.
 
-  Lemma if_sim indef bs s : forallb (core_ok_list indef) bs = true ->
-    m_ifs (mrec indef) bs true s = r_if rrec bs s.
+  Lemma if_sim indef il lam bs s : forallb (core_ok_list indef il lam) bs = true ->
+    m_ifs (mrec indef) bs true s = lift (r_if rrec bs s) /\ sig_ok il lam (r_if rrec bs s).
   Proof.
-    intro Hc. destruct bs as [|x [|y rest]]; [reflexivity| |].
+    intro Hc. destruct bs as [|x [|y rest]]; [simpl; auto| |].
     - simpl in Hc. rewrite andb_true_r in Hc. cbn [m_ifs r_if r_elif].
-      destruct (pop1 s) as [s1 v]. apply xbind_ext. intros b _. destruct b; [apply Hrec; exact Hc|reflexivity].
+      destruct (pop1 s) as [s1 v].
+      destruct (truthy v) as [[|]|]; simpl; [apply Hrec; exact Hc|split; [reflexivity|exact I]|split; [reflexivity|exact I]].
     - cbn [forallb] in Hc. apply andb_prop in Hc as [Hx Hc].
-      rewrite m_ifs_true2. cbn [r_if]. destruct (pop1 s) as [s1 v]. apply xbind_ext. intros b _. destruct b.
-      + apply Hrec. exact Hx.
-      + apply (ifs_sim indef (length (y :: rest))); [lia|exact Hc].
+      rewrite m_ifs_true2. cbn [r_if]. destruct (pop1 s) as [s1 v].
+      destruct (truthy v) as [[|]|]; cbn [of_opt xbind];
+        [apply Hrec; exact Hx|apply (ifs_sim indef il lam (length (y :: rest))); [lia|exact Hc]|split; [reflexivity|exact I]].
   Qed.
 
   (* ---- for ------------------------------------------------------------------------------------------------------------------ *)
-  Lemma for_sim indef var body items : core_ok_list indef body = true ->
-    forall s, m_for (mrec indef) var body items s = r_for rrec var body items s.
+  Lemma for_sim indef var body items : core_ok_list indef LFor false body = true ->
+    forall s, m_for (mrec indef) var body items s = r_for rrec var body items s /\ only_norm (r_for rrec var body items s).
   Proof.
-    intro Hc. induction items as [|x r IH]; intro s; [reflexivity|].
+    intro Hc. induction items as [|x r IH]; intro s; [simpl; auto|].
     cbn [m_for r_for].
     set (s1 := match var with Some v => set_vars s (assign v x (vars s)) | None => s end).
-    rewrite <- (ctx_push_pop x (rrec body) s1) by apply Hfr.
-    rewrite (Hrec indef body _ Hc).
-    destruct (rrec body (m_ctx_push x s1)) as [s2| |]; simpl; try reflexivity.
-    destruct (m_ctx_pop s2); simpl; try reflexivity. apply IH.
+    destruct (Hrec indef LFor false body (m_ctx_push x s1) Hc) as [E SG].
+    pose proof (ctx_iteration x (rrec body) s1 (Hfr _ _)) as CI.
+    unfold with_context, bracket in *. fold (m_ctx_push x s1) in *.
+    rewrite E. clear E.
+    destruct (rrec body (m_ctx_push x s1)) as [[g s2]| |]; simpl in *; auto.
+    destruct g; simpl in *; try discriminate.
+    - destruct (m_ctx_pop s2) as [s3| |]; simpl in *; inversion CI; subst; apply IH.
+    - destruct (m_ctx_pop s2) as [s3| |]; simpl in *; inversion CI; subst; simpl; auto.
+    - destruct (m_ctx_pop s2) as [s3| |]; simpl in *; inversion CI; subst; apply IH.
   Qed.
 
   (* ---- list literals -------------------------------------------------------------------------------------------------------- *)
-  Lemma set_stk_same s : set_stk s (stk s) = s.
-  Proof. destruct s; reflexivity. Qed.
-
-  Lemma items_sim : forall its temp s, forallb (core_ok_list true) its = true ->
+  Lemma items_sim : forall its temp s, forallb (core_ok_list true LNone false) its = true ->
     m_items (mrec true) its temp s = xdo (vs, s') <- r_items rrec its s; XOk (temp ++ vs, s').
   Proof.
     induction its as [|x r IH]; intros temp s Hc.
     - simpl. rewrite app_nil_r. reflexivity.
     - cbn [forallb] in Hc. apply andb_prop in Hc as [Hx Hr].
       cbn [m_items r_items]. unfold with_stack, with_locals, bracket. rewrite set_stk_same.
-      rewrite (Hrec true x _ Hx). destruct (rrec x (set_locs s [])) as [s1| |]; simpl; try reflexivity.
+      destruct (rec_plain true x (set_locs s []) Hx) as [E ON]. rewrite E. clear E.
+      destruct (rrec x (set_locs s [])) as [[g s1]| |]; simpl; try reflexivity.
+      destruct g; simpl in ON; try contradiction. simpl.
       destruct (stk s1) as [|v rest]; simpl.
       + rewrite (IH temp _ Hr). unfold set_stk, set_locs; simpl.
         match goal with |- context [r_items rrec r ?S1] => destruct (r_items rrec r S1) as [[vs s2]| |] end; reflexivity.
@@ -286,70 +418,109 @@ Section Sim.
   Qed.
 
   (* ---- one statement --------------------------------------------------------------------------------------------------------- *)
-  Lemma step_sim indef x s : core_ok indef x = true -> m_step cf mrec mwl indef x s = r_step cf rrec rwl x s.
+  Ltac plain := split; [symmetry; apply only_norm_lift|apply only_norm_sig].
+
+  Lemma step_sim indef il lam x s : core_ok indef il lam x = true ->
+    m_step cf mrec mwl indef x s = lift (r_step cf rrec rwl x s) /\ sig_ok il lam (r_step cf rrec rwl x s).
   Proof.
     destruct x; cbn [core_ok m_step r_step]; intro Hc; try discriminate.
-    - apply token_sim. exact Hc.
+    - rewrite (token_sim indef t s Hc). plain; apply only_norm_norm.
+    - apply break_sim. exact Hc.
+    - apply (recurse_sim indef). exact Hc.
     - apply if_sim. exact Hc.
     - apply andb_prop in Hc as [Hn Hb]. destruct names as [|n ?].
-      + destruct (pop1 s) as [s1 v]. apply xbind_ext. intros items _. apply for_sim. exact Hb.
+      + destruct (pop1 s) as [s1 v]. destruct (iter_range cf v) as [items|]; simpl; auto.
+        destruct (for_sim indef None body items Hb s1) as [E ON]. rewrite E. plain; exact ON.
       + apply andb_prop in Hn as [Hn1 Hn2]. rewrite Hn1, Hn2. simpl.
-        destruct (pop1 s) as [s1 v]. apply xbind_ext. intros items _. apply for_sim. exact Hb.
-    - apply andb_prop in Hc as [Hc1 Hc2]. rewrite (Hrec indef cond s Hc1). apply xbind_ext. intros s1 _.
-      destruct (pop1 s1) as [s2 v]. apply Hwl; assumption.
-    - rewrite Hc. destruct (lookup_var _ s) as [[z|l|c]|]; try reflexivity. apply callstk_sim.
+        destruct (pop1 s) as [s1 v]. destruct (iter_range cf v) as [items|]; simpl; auto.
+        destruct (for_sim indef (Some (keep re_keep_for n)) body items Hb s1) as [E ON]. rewrite E. plain; exact ON.
+    - apply andb_prop in Hc as [Hc1 Hc2]. destruct (rec_plain indef cond s Hc1) as [E ON]. rewrite E.
+      destruct (rrec cond s) as [[g s1]| |]; simpl; auto.
+      destruct g; simpl in ON; try contradiction.
+      destruct (pop1 s1) as [s2 v]. destruct (Hwl indef v cond body s2 Hc1 Hc2) as [E2 ON2]. rewrite E2. plain; exact ON2.
+    - rewrite Hc. destruct (lookup_var _ s) as [[z|l|c]|]; simpl; auto. rewrite call_sim. plain; apply only_norm_norm.
     - apply andb_prop in Hc as [Hc Hb]. apply andb_prop in Hc as [Hc Hp]. apply andb_prop in Hc as [Hi Hn].
-      rewrite Hi, Hn. reflexivity.
-    - reflexivity.
-    - destruct op; try reflexivity; apply elem_sim.
-    - rewrite (items_sim items [] s Hc). destruct (r_items rrec items s) as [[vs s1]| |]; reflexivity.
-    - apply andb_prop in Hc as [Hm Ha]. rewrite Hm. unfold m_operand, pop1, push. st_simpl.
-      rewrite set_stk_same'. apply mod1_sem_ext; [apply app_sim|apply callstk_sim].
+      rewrite Hi, Hn. simpl. destruct (params_of params); simpl; auto.
+    - simpl. auto.
+    - destruct op; rewrite elem_sim; plain; apply only_norm_norm.
+    - rewrite (items_sim items [] s Hc). destruct (r_items rrec items s) as [[vs s1]| |]; simpl; auto.
+    - apply andb_prop in Hc as [Hm Ha]. rewrite Hm. unfold m_operand, pop1, push. simpl.
+      rewrite set_stk_set. rewrite (mod1_sem_ext cf _ _ _ _ (app_sim) (callstk_sim)). plain; apply only_norm_norm.
     - apply andb_prop in Hc as [Hc Hb]. apply andb_prop in Hc as [Hm Ha]. rewrite Hm.
-      unfold m_operand, pop1, push. st_simpl. rewrite !set_stk_same'. apply mod2_sem_ext. apply app_sim.
+      unfold m_operand, pop1, push. simpl. rewrite !set_stk_set.
+      rewrite (mod2_sem_ext _ _ (app_sim)). plain; apply only_norm_norm.
   Qed.
 End Sim.
 
 (* ---- induction on the fuel ------------------------------------------------------------------------------------------------ *)
-Lemma seq_sim (st1 st2 : struct -> state -> xres state) indef p :
-  (forall x s, core_ok indef x = true -> st1 x s = st2 x s) ->
-  core_ok_list indef p = true -> forall s, seq_run st1 p s = seq_run st2 p s.
+Lemma seq_sim (st1 st2 : struct -> state -> fres) indef il lam p :
+  (forall x s, core_ok indef il lam x = true -> st1 x s = lift (st2 x s) /\ sig_ok il lam (st2 x s)) ->
+  core_ok_list indef il lam p = true ->
+  forall s, seq_run st1 p s = lift (seq_run st2 p s) /\ sig_ok il lam (seq_run st2 p s).
 Proof.
-  intro H. induction p as [|x r IH]; intros Hc s; [reflexivity|].
+  intro H. induction p as [|x r IH]; intros Hc s; [simpl; auto|].
   cbn [core_ok_list forallb] in Hc. apply andb_prop in Hc as [Hx Hr].
-  cbn [seq_run]. rewrite (H x s Hx). apply xbind_ext. intros s1 _. apply IH. exact Hr.
+  rewrite !seq_run_then. destruct (H x s Hx) as [E S]. split.
+  - apply lift_then; [exact E|]. intros s1 _. apply IH. exact Hr.
+  - apply sig_then; [exact S|]. intros s1 _. apply IH. exact Hr.
 Qed.
 
 Lemma sim cf fuel :
-  (forall indef p s, core_ok_list indef p = true -> exec cf fuel indef p s = eval cf fuel p s)
-  /\ (forall indef v c b s, core_ok_list indef c = true -> core_ok_list indef b = true ->
-        mloop cf fuel indef v c b s = rloop cf fuel v c b s).
+  (forall indef il lam p s, core_ok_list indef il lam p = true ->
+     exec cf fuel indef p s = lift (eval cf fuel p s) /\ sig_ok il lam (eval cf fuel p s))
+  /\ (forall indef v c b s, core_ok_list indef LNone false c = true -> core_ok_list indef LWhile false b = true ->
+        mloop cf fuel indef v c b s = rloop cf fuel v c b s /\ only_norm (rloop cf fuel v c b s)).
 Proof.
-  induction fuel as [|f [IH1 IH2]]; [split; intros; reflexivity|].
+  induction fuel as [|f [IH1 IH2]]; [split; intros; simpl; auto|].
   pose proof (proj1 (eval_keeps cf f)) as Hfr.
   split.
-  - intros indef p s Hc. cbn [exec eval]. apply (seq_sim _ _ indef); [|exact Hc].
+  - intros indef il lam p s Hc. cbn [exec eval]. apply (seq_sim _ _ indef il lam); [|exact Hc].
     intros x s0 Hx. apply step_sim; assumption.
-  - intros indef v c b s Hc Hb. cbn [mloop rloop]. apply xbind_ext. intros t _. destruct t; [|reflexivity].
-    rewrite <- (ctx_push_pop v (eval cf f b) s) by apply Hfr.
-    rewrite (IH1 indef b _ Hb).
-    destruct (eval cf f b (m_ctx_push v s)) as [s1| |]; simpl; try reflexivity.
-    destruct (m_ctx_pop s1) as [s2| |]; simpl; try reflexivity.
-    rewrite (IH1 indef c _ Hc). apply xbind_ext. intros s3 _.
-    destruct (pop1 s3) as [s4 v']. apply IH2; assumption.
+  - intros indef v c b s Hc Hb. cbn [mloop rloop].
+    destruct (truthy v) as [[|]|]; simpl; auto.
+    destruct (IH1 indef LWhile false b (m_ctx_push v s) Hb) as [E SG].
+    pose proof (ctx_iteration v (eval cf f b) s (Hfr _ _)) as CI.
+    unfold with_context, bracket in *. fold (m_ctx_push v s) in *.
+    rewrite E. clear E.
+    destruct (eval cf f b (m_ctx_push v s)) as [[g s2]| |]; simpl in *; auto.
+    destruct g; simpl in *; try discriminate.
+    + destruct (m_ctx_pop s2) as [s3| |]; simpl in *; inversion CI; subst; auto.
+      match goal with |- context [exec cf f indef c ?S] => destruct (IH1 indef LNone false c S Hc) as [E2 S2] end.
+      apply sig_none in S2.
+      rewrite E2, (only_norm_lift _ S2).
+      destruct (eval cf f c _) as [[g2 s4]| |]; simpl in *; auto.
+      destruct g2; simpl in S2; try contradiction.
+      destruct (pop1 s4) as [s5 v']. apply IH2; assumption.
+    + destruct (m_ctx_pop s2) as [s3| |]; simpl in *; inversion CI; subst; simpl; auto.
 Qed.
 
-(* the code emitted for a core program does what the documented semantics says: same stack,
-   same printed text, same variables, register, input cursors and bookkeeping, same error,
-   same out-of-fuel, for every fuel, every state and every flag configuration *)
-Theorem compile_correct cf fuel p s :
-  core_ok_list false p = true -> exec cf fuel false p s = eval cf fuel p s.
-Proof. apply (proj1 (sim cf fuel)). Qed.
+(* inside a def (lambda and function bodies, list items, operands) or a loop body: the same up to the
+   pops the emitted code performs before it jumps *)
+Theorem compile_correct_indef cf fuel indef il lam p s :
+  core_ok_list indef il lam p = true -> exec cf fuel indef p s = lift (eval cf fuel p s).
+Proof. intro H. apply (proj1 (sim cf fuel) indef il lam p s H). Qed.
 
-(* the same inside a def (lambda / function bodies, list items, modifier operands) *)
-Theorem compile_correct_indef cf fuel indef p s :
-  core_ok_list indef p = true -> exec cf fuel indef p s = eval cf fuel p s.
-Proof. apply (proj1 (sim cf fuel)). Qed.
+(* which early exits can leave a statement list *)
+Theorem eval_signals cf fuel indef il lam p s :
+  core_ok_list indef il lam p = true -> sig_ok il lam (eval cf fuel p s).
+Proof. intro H. apply (proj1 (sim cf fuel) indef il lam p s H). Qed.
+
+(* where nothing encloses the code no early exit leaves it, and the outcomes are EQUAL: same stack,
+   same printed text, same variables, register, input cursors and bookkeeping, same error, same
+   out-of-fuel, for every fuel, every state and every flag configuration *)
+Theorem compile_correct cf fuel p s :
+  core_ok_list false LNone false p = true -> exec cf fuel false p s = eval cf fuel p s.
+Proof.
+  intro H. destruct (proj1 (sim cf fuel) false LNone false p s H) as [E S].
+  rewrite E. apply only_norm_lift. apply sig_none. exact S.
+Qed.
+
+Theorem ends_normally cf fuel p s g s' :
+  core_ok_list false LNone false p = true -> eval cf fuel p s = XOk (g, s') -> g = SNorm.
+Proof.
+  intros H E. pose proof (sig_none _ (eval_signals cf fuel false LNone false p s H)) as S.
+  rewrite E in S. destruct g; simpl in S; tauto.
+Qed.
 
 (* whole programs: start-up (flag H), run, implicit output under the flags j s W O o, ranges under M m *)
 Lemma finish_ext app1 app2 fl s : (forall c args s, app1 c args s = app2 c args s) -> finish app1 fl s = finish app2 fl s.
@@ -364,24 +535,26 @@ Proof.
 Qed.
 
 Theorem program_correct fl fuel inputs p :
-  core_ok_list false p = true -> run_machine fl fuel inputs p = run_ref fl fuel inputs p.
+  core_ok_list false LNone false p = true -> run_machine fl fuel inputs p = run_ref fl fuel inputs p.
 Proof.
   intro Hc. unfold run_machine, run_ref. rewrite (compile_correct _ _ _ _ Hc).
-  apply xbind_ext. intros s _. apply finish_ext. intros c args s0.
+  apply xbind_ext. intros [g s] _. destruct g; try reflexivity.
+  apply finish_ext. intros c args s0.
   apply app_sim.
-  - intros indef q s1 Hq. apply compile_correct_indef. exact Hq.
+  - intros indef il lam q s1 Hq. apply (proj1 (sim (cfg_of fl) fuel) indef il lam q s1 Hq).
   - intros q s1. apply (proj1 (eval_keeps (cfg_of fl) fuel)).
 Qed.
 
 (* ---- the bookkeeping of the emitted code is balanced (the C12 reading of the same fact) ------------------------------ *)
-Corollary exec_frames cf fuel p s s' :
-  core_ok_list false p = true -> exec cf fuel false p s = XOk s' -> frames s s'.
+Corollary exec_frames cf fuel p s g s' :
+  core_ok_list false LNone false p = true -> exec cf fuel false p s = XOk (g, s') -> frames s s'.
 Proof. intros Hc H. rewrite (compile_correct _ _ _ _ Hc) in H. eapply eval_frames; eauto. Qed.
 
 (* ---- stated over the core grammar as a whole (Values.core_program adds the static name discipline
-   under which the machine's account of Python scoping is faithful) ---------------------------------------- *)
-Lemma core_program_core p : core_program p = true -> core_ok_list false p = true.
-Proof. unfold core_program. intro H. apply andb_prop in H as [H _]. exact H. Qed.
+   under which the machine's account of Python scoping is faithful, and keeps `x` under a modifier
+   inside the operand) ------------------------------------------------------------------------------------ *)
+Lemma core_program_core p : core_program p = true -> core_ok_list false LNone false p = true.
+Proof. unfold core_program. intro H. apply andb_prop in H as [H _]. apply andb_prop in H as [H _]. exact H. Qed.
 
 Theorem compile_correct_program cf fuel p s :
   core_program p = true -> exec cf fuel false p s = eval cf fuel p s.
